@@ -7,7 +7,7 @@ From Model Require Import CacheConc.
 Import ListNotations.
 
 Definition all_pcs : list pc := [
-  SG301; SG302; SG303; SG306; SG308; F93; F94; F99; F100; F102; F104; F105; F106; F107; F108; F109; F110; F111; F112; F114; F115; F116; F117; F118; F119; F121; F122; F123; F124; F125; F126; M951; M954; SP311; P152; P153; M956; SQ314; Q162; C1397; C1400; SK317; SK318; SK319; SK320; SK322; K171; K172; K177; K178; K180; K181a; K181t; K181; K181r; U192; U193; U195; U196; U197; U198; U200; U201; U202; U204; U205; U209; U210; U214; U216; X1070; X1072; X1074; X1078; X1079; SE325; SE326; SE327; SE328; E232; E234; E235; E236; E237; E238; E239; E241; X1083; SW364; SW367; SW368; A248; A250; A251; A252; A253; A254; A256; Z681; Z682; Z683; SL375; SL380; SL381; SL383; L272; L273; L275; L276; L279; L280; L280n; L281; L283; L282].
+  SG301; SG302; SG303; SG306; SG308; F93; F94; F99; F100; F102; F104; F105; F106; F107; F108; F109; F110; F111; F112; F114; F115; F116; F117; F118; F119; F121; F122; F123; F124; F125; F126; M951; M954; SP311; P152; P153; M956; SQ314; Q162; C1397; C1400; SK317; SK318; SK319; SK320; SK322; K171; K172; K177; K178; K180; K181a; K181t; K181; K181r; U192; U193; U195; U196; U197; U198; U200; U201; U202; U204; U205; U209; U210; U214; U216; X1072; X1074; X1078; X1079; SE325; SE326; SE327; SE328; E232; E234; E235; E236; E237; E238; E239; E241; X1083; SW364; SW367; SW368; A248; A250; A251; A252; A253; A254; A256; Z681; Z682; Z683; SL375; SL380; SL381; SL383; L272; L273; L275; L276; L279; L280; L280n; L281; L283; L282].
 
 Definition pc_name (p : pc) : string :=
   match p with
@@ -82,7 +82,6 @@ Definition pc_name (p : pc) : string :=
   | U210 => "U210"
   | U214 => "U214"
   | U216 => "U216"
-  | X1070 => "X1070"
   | X1072 => "X1072"
   | X1074 => "X1074"
   | X1078 => "X1078"
@@ -223,7 +222,7 @@ Definition valdef (p : pc) : bool :=
 Definition selfdef (p : pc) : bool :=
   match p with
   | C1400 | SK317 | SK318 | SK319 | SK320 | SK322 | K171 | K172 | K177 | K178 | K180 | K181a | K181t | K181
-  | X1070 | X1072 | X1074 | X1078 | X1079 | SE325 | SE326 | SE327 | SE328
+  | X1072 | X1074 | X1078 | X1079 | SE325 | SE326 | SE327 | SE328
   | E232 | E234 | E235 | E236 | E237 | E238 | E239 | E241 | X1083 | Z683 => true
   | _ => false
   end.
